@@ -172,7 +172,7 @@ def _shuffled_dict(rng, d):
 def program(rng, *, n_state=(1, 5), n_control=(0, 3), n_calib=(0, 3), n_sensor=(0, 3),
             n_reading=(1, 4), depth=3, cpp_safe=True, allow_text=True, n_shared=(1, 3),
             integrator_bias=0.5, dt_names=("dt",), sensor_calib=True, containers=True,
-            calib_containers=("set",)):
+            calib_containers=("set", "set", "frozenset", "list", "tuple")):
     """Random model + sensor definition."""
     P = pools()
     taken = set()
